@@ -312,7 +312,7 @@ UNTRUSTED_TYPES = ('delta::Delta', 'delta::DeltaOp', 'signature::Signature', 'si
                    'wire::Request', 'wire::Response')
 
 
-def internal_debug_assertion(F, b, bi):
+def internal_debug_assertion(F, b, bi, untainted=True):
     """the panic in block `bi` belongs to a `debug_assert*!` (behind `cfg!(debug_assertions)`) whose condition is computed from
     values no field of a decoded input structure flows into"""
     fl = flow_of(b)
@@ -333,7 +333,11 @@ def internal_debug_assertion(F, b, bi):
             dbg = True
             continue
         conds.append((s_, t['on']))
-    if not dbg or not conds:
+    if not dbg:
+        return False
+    if not untainted:
+        return True
+    if not conds:
         return False
     # (b) the nearest test decides the assertion; what it examines
     s_, cond = max(conds, key=lambda x: len(cfg.reach(0, cut_blocks=[x[0]])))
@@ -450,10 +454,11 @@ def run_entries(ctx, rid, entries, text, floor_bodies=3):
                     return b_.file
             return None
         tabled_fns = {fn for (fn, _k) in EXC}
+        reached = {p_.split('::{')[0] for p_ in graph}      # allowance of a tabled function these entry points never reach is not slack
         slack = {}
         for (fn, kind), (mx, _) in EXC.items():
             f_ = file_of(fn)
-            if f_ is not None:
+            if f_ is not None and fn in reached:
                 have = len(groups.get((fn, kind), []))
                 slack[(f_, kind)] = slack.get((f_, kind), 0) + max(0, mx - have)
         for (top, kind), lst in sorted(groups.items()):
@@ -461,19 +466,24 @@ def run_entries(ctx, rid, entries, text, floor_bodies=3):
             f_ = lst[0][0].file
             if len(lst) <= mx:
                 ctx.ok(rid, '%s:%s' % (top, kind), '%d site(s) <= %d tabled: %s' % (len(lst), mx, reason), term_loc(lst[0][0], lst[0][1]))
-            elif top not in tabled_fns and len(lst) <= slack.get((f_, kind), 0):
+            elif top not in tabled_fns and top not in baseline_functions() and len(lst) <= slack.get((f_, kind), 0):
                 # a function the table has never seen (extract-function) takes over allowance that tabled functions of the
                 # same file no longer use; a tabled function never borrows (a new site in it is judged on its own)
                 slack[(f_, kind)] -= len(lst)
                 ctx.ok(rid, '%s:%s' % (top, kind), '%d site(s) in a new helper; tabled functions of this file have that many fewer than tabled (judged sites moved into the helper)'
                        % len(lst), term_loc(lst[0][0], lst[0][1]))
-            elif kind == 'panic' and len(lst) > mx and sum(1 for (b, bi, d) in lst if not internal_debug_assertion(F, b, bi)) <= mx:
-                # more assertion sites than tabled, but the surplus are debug-only assertions about values the function
-                # computed itself (no field of a decoded input structure reaches the condition): whether they can fail is a
-                # question about the function's logic, not about hostile input - not decided here, and not reported
-                extra = [(b, bi, d) for (b, bi, d) in lst if internal_debug_assertion(F, b, bi)]
-                ctx.undecided(rid, '%s: %d debug-only assertion(s) on internal state beyond the tabled %d (%s)' % (
-                    top, len(extra), mx, '; '.join(d for _, _, d in extra[:3])))
+            elif kind == 'panic' and len(lst) > mx and all(internal_debug_assertion(F, b, bi, untainted=False) for (b, bi, d) in lst):
+                # more assertion sites than tabled, but every one of them is a debug-only assertion (`debug_assert*!`, compiled out
+                # of release builds; every tabled site of this kind is one too, so a plain `assert!`/`panic!` is always surplus). Whether such a condition can be false is a question about values: for one computed from the
+                # function's own state it is a question about the function's logic, not about hostile input; for one that a decoded
+                # structure flows into it may be an invariant (sum of bucket sizes == number of blocks) or a missing check (F5) -
+                # neither is decided here, and neither is reported as a violation. The specific rules (C05.R6 size agreement,
+                # C20.R7 block-size validation, C12.R3 length prefix) report the checks whose replacement by an assertion matters.
+                extra = [(b, bi, d) for (b, bi, d) in lst if internal_debug_assertion(F, b, bi, untainted=False)]
+                inner = [x for x in extra if internal_debug_assertion(F, x[0], x[1])]
+                ctx.undecided(rid, '%s: %d debug-only assertion(s) beyond the tabled %d (%d on internal state, %d on state a decoded input flows into): '
+                              'that their conditions hold for every input is not decided (%s)' % (
+                                  top, len(extra), mx, len(inner), len(extra) - len(inner), '; '.join(d for _, _, d in extra[:3])))
             elif top not in baseline_functions():
                 # a function that did not exist when the table was written (new helper, new type's method): its sites have not
                 # been judged by anyone - say so instead of calling them violations (a site added to a function that DID exist
